@@ -4,6 +4,7 @@ import (
 	"fmt"
 	"math"
 	"math/big"
+	"verif/internal/refmodel"
 
 	"github.com/paulmach/orb"
 	"github.com/paulmach/orb/clip"
@@ -355,6 +356,57 @@ func c07check(c *h.Ctx, box [4]float64, line []P, tol float64, full bool) (nontr
 			}
 			c.Count("wholly_inside", 1)
 		}
+		// the pieces are separate values: filling the spare capacity behind one piece (what a caller's append does)
+		// must not change another piece
+		if len(got) >= 2 {
+			snapPieces := refmodel.Copy(got)
+			for _, piece := range got {
+				if p, ok := snapInput(piece, in); ok {
+					spare := p[len(p):cap(p)]
+					for i := range spare {
+						spare[i] = orb.Point{math.NaN(), math.NaN()}
+					}
+				}
+			}
+			if !refmodel.EqualBits(got, snapPieces) {
+				c.Fail("", "output pieces share memory: appending to one piece overwrites another", map[string]interface{}{"case": cs(), "pieces_before": sv(snapPieces), "pieces_after": sv(got)})
+			}
+			c.Count("piece_independence_checks", 1)
+		}
+		// the same case with zeros spelled as negative zeros (equal values): the same pieces must come back
+		if hasZero(box, line) {
+			nz := func(v float64, flip bool) float64 {
+				if v == 0 && flip {
+					return math.Copysign(0, -1)
+				}
+				return v
+			}
+			k := h.Mix(c.CaseHash(), uint64(pass), h.HashFloats(box[:]...), hashP(line))
+			bit := func() bool { k = k*6364136223846793005 + 1442695040888963407; return k>>63 == 1 }
+			bz := boundOf(nz(box[0], bit()), nz(box[1], bit()), nz(box[2], bit()), nz(box[3], bit()))
+			inz := make(orb.LineString, len(in))
+			for i, v := range in {
+				inz[i] = orb.Point{nz(v[0], bit()), nz(v[1], bit())}
+			}
+			var gz orb.MultiLineString
+			if open {
+				gz = clip.LineString(bz, inz, clip.OpenBound(true))
+			} else {
+				gz = clip.LineString(bz, inz)
+			}
+			c.Eval()
+			same := len(gz) == len(got)
+			for i := 0; same && i < len(gz); i++ {
+				same = len(gz[i]) == len(got[i])
+				for j := 0; same && j < len(gz[i]); j++ {
+					same = gz[i][j] == got[i][j]
+				}
+			}
+			if !same {
+				c.Fail("", "spelling a zero coordinate as negative zero changes the clipped pieces", map[string]interface{}{"case": cs(), "box_spelled": sv(bz), "line_spelled": fmt.Sprintf("%v", inz), "got": sv(gz), "with_positive_zeros": sv(got)})
+			}
+			c.Count("negative_zero_spellings", 1)
+		}
 		if !full {
 			continue
 		}
@@ -435,6 +487,29 @@ func c07check(c *h.Ctx, box [4]float64, line []P, tol float64, full bool) (nontr
 	return nontrivial
 }
 
+// snapInput reports whether piece may be written behind its length: not when it is the caller's own input slice
+// (a line wholly inside is returned as it is).
+func snapInput(piece, in orb.LineString) (orb.LineString, bool) {
+	if len(piece) > 0 && len(in) > 0 && &piece[0] == &in[0] {
+		return nil, false
+	}
+	return piece, cap(piece) > len(piece)
+}
+
+func hasZero(box [4]float64, line []P) bool {
+	for _, v := range box {
+		if v == 0 {
+			return true
+		}
+	}
+	for _, p := range line {
+		if p[0] == 0 || p[1] == 0 {
+			return true
+		}
+	}
+	return false
+}
+
 func max1(n int) int {
 	if n < 1 {
 		return 1
@@ -459,7 +534,7 @@ func init() {
 
 	h.Register(&h.Monitor{
 		ID: "C07",
-		Rule: "cases are (box, line) pairs, each clipped closed, open and closed again; exhaustive part: every segment / two-segment path on the 7x7 integer grid against all 100 sub-boxes of the inner 5x5 grid; random part: float polylines of <= 30 vertices with vertices snapped onto box edges and corners with probability 1/4. " +
+		Rule: "cases are (box, line) pairs, each clipped closed, open and closed again; exhaustive part: every segment / two-segment path on the 7x7 integer grid against all 100 sub-boxes of the inner 5x5 grid, the segments also with everything translated by (-3,-3) and zeros spelled as negative zeros; random part: float polylines of <= 30 vertices with vertices snapped onto box edges and corners with probability 1/4. " +
 			"non-trivial = the exact oracle finds a positive-length part of the line inside the box; distinct = hash of (box, line)",
 		MinNontrivial: h.Fixed(50000, 500000),
 		Assumptions: []string{
@@ -486,6 +561,25 @@ func init() {
 					}
 					if c.WantSample() {
 						c.Sample(map[string]interface{}{"line": line, "boxes": "all 100 sub-boxes of the 5x5 grid", "modes": "closed, open, closed"})
+					}
+				},
+			},
+			{
+				// the same space translated by (-3,-3): box sides and vertices at zero (both spellings of zero) and negative coordinates
+				Name:       "grid-segments-around-zero",
+				Count:      h.Fixed(2401, 2401),
+				Exhaustive: h.Always,
+				Run: func(c *h.Ctx, idx uint64, r *h.Rand) {
+					sh := func(p P) P { return P{p[0] - 3, p[1] - 3} }
+					line := []P{sh(gp(idx / 49)), sh(gp(idx % 49))}
+					for _, b5 := range c07boxes5 {
+						box := [4]float64{b5[0] - 3, b5[1] - 3, b5[2] - 3, b5[3] - 3}
+						if c07check(c, box, line, 1e-12, true) {
+							c.Nontrivial(h.Mix(c.CaseHash(), uint64(b5[0]), uint64(b5[1]), uint64(b5[2]), uint64(b5[3])))
+						}
+					}
+					if c.WantSample() {
+						c.Sample(map[string]interface{}{"line": line, "boxes": "all 100 sub-boxes of the 5x5 grid shifted by (-3,-3)", "modes": "closed, open, closed; zeros also spelled -0"})
 					}
 				},
 			},
